@@ -27,7 +27,8 @@ import (
 )
 
 type twinCase struct {
-	Oracle string `json:"oracle"` // "twin"
+	Oracle   string `json:"oracle"` // "twin"
+	EntryAll bool   `json:"entry_all,omitempty"`
 	Label  string `json:"label,omitempty"`
 	Tree   *Node  `json:"tree"`
 }
@@ -52,6 +53,7 @@ func tableCells() []string {
 func runCaseJSON(r *mon.Run, raw []byte) bool {
 	var w struct {
 		Oracle   string          `json:"oracle"`
+		EntryAll bool            `json:"entry_all"`
 		Tree     *Node           `json:"tree"`
 		Mode     string          `json:"mode"`
 		Legacy   bool            `json:"pre_proposal013"`
@@ -64,6 +66,7 @@ func runCaseJSON(r *mon.Run, raw []byte) bool {
 	}
 	switch {
 	case w.Tree != nil:
+		entryAll = w.EntryAll
 		judgeTree(r, &twinStats{seenSigs: map[string][]string{}}, w.Tree, "replay")
 		return true
 	case len(w.Txs) > 0:
@@ -111,9 +114,12 @@ func childMain(r *mon.Run, args []string) {
 		if i%nShards != shard {
 			continue
 		}
-		b, _ := json.Marshal(twinCase{Oracle: "twin", Label: sc.Kind + "/" + sc.Mode + "/" + sc.Action, Tree: sc.Tree})
+		b, _ := json.Marshal(twinCase{Oracle: "twin", EntryAll: true, Label: sc.Kind + "/" + sc.Mode + "/" + sc.Action, Tree: sc.Tree})
 		r.CaseBegin(b)
-		if judgeTree(r, st, sc.Tree, "sys") {
+		entryAll = true
+		nt := judgeTree(r, st, sc.Tree, "sys")
+		entryAll = false
+		if nt {
 			r.Count("triple_"+sc.Kind+"_"+sc.Mode+"_"+sc.Action, 1)
 			r.Distinct("triples_nontrivial", []byte(sc.Kind+"/"+sc.Mode+"/"+sc.Action))
 			r.Distinct("actions_nontrivial", []byte(sc.Action))
